@@ -317,7 +317,7 @@ class Scene:
             raise RuntimeError("The scene has no aircraft named {0}.".format(airplane_name))
 
         # Update quantities
-        self._N -= deleted_aircraft.get_num_cps()
+        self._N -= deleted_aircraft.N
         self._num_aircraft -= 1
 
         # Reinitialize arrays
